@@ -687,3 +687,12 @@ Section Composition.
     rewrite Hl1, Hl2. split; [reflexivity|discriminate].
   Qed.
 End Composition.
+
+(** ** 7. Small facts used by Properties/C13.v *)
+Lemma flag_plumbing : forall o p k i r,
+  snap_config_of (MkFlags o p k i r) = MkSnapCfg k i r.
+Proof. reflexivity. Qed.
+
+Lemma validation_gate : forall sfeat snapfun snap pipeline (a : args sfeat) fs,
+  a_tms_ok a = false -> cli_run sfeat snapfun snap pipeline a fs = CErr InvalidTms.
+Proof. intros. unfold cli_run. now rewrite H. Qed.
